@@ -681,4 +681,25 @@ example : (fitDiscreteMc (α := ℚ) [[-1/10, 6/5], [2, 0], [1/2, 2/5], [1, 1/10
   decide +kernel
 example : ∀ g ∈ ([[0, 1, 2], [0, 1]] : List (List Rat)), g ≠ [] ∧ g.Pairwise (· ≤ ·) := by decide +kernel
 
+/-! ## histories
+
+`tauchen`, `rouwenhorst`, `estimate_mc`, `fit_discrete_mc` are modelled as pure functions of their
+arguments (no object state, no cache, no reused buffer). The history statement the harness checks
+on the real code (every kept result stays bitwise unchanged; a repeated call returns the same
+bits; results never alias inputs or earlier results) is, for the model: -/
+
+/-- **History theorem.** In any history the `k`-th answer is a function of the `k`-th request only,
+    and the answers already given are not changed by later requests. -/
+theorem run_history (reqs more : List (List String)) (k : ℕ) :
+    (run reqs)[k]? = reqs[k]?.map handle ∧ run (reqs ++ more) = run reqs ++ run more ∧
+    (k < reqs.length → (run (reqs ++ more))[k]? = (run reqs)[k]?) := by
+  refine ⟨by simp [run], by simp [run], fun hk => ?_⟩
+  simp only [run, List.map_append]
+  rw [List.getElem?_append_left (by simpa using hk)]
+
+/-- identical requests get identical answers wherever they occur in a history -/
+theorem run_repeat (reqs : List (List String)) (i j : ℕ) (hi : i < reqs.length) (hj : j < reqs.length)
+    (h : reqs[i] = reqs[j]) : (run reqs)[i]? = (run reqs)[j]? := by
+  simp [run, List.getElem?_eq_getElem hi, List.getElem?_eq_getElem hj, h]
+
 end QE.C13
